@@ -65,6 +65,23 @@ pub fn main(args: &[String]) {
     let stdout = std::io::stdout();
     let mut out = std::io::BufWriter::new(stdout.lock());
     let mode = args[0].as_str();
+    if mode == "uppertable" {
+        // "<cp> <u1> [<u2> <u3>]" for every scalar value whose upper-casing (as used by name matching) is not itself
+        for cp in 0u32..=0x10FFFF {
+            if let Some(c) = char::from_u32(cp) {
+                #[cfg(feature = "unicode")]
+                let up: Vec<u32> = c.to_uppercase().map(|x| x as u32).collect();
+                #[cfg(not(feature = "unicode"))]
+                let up: Vec<u32> = vec![c.to_ascii_uppercase() as u32];
+                if up.len() != 1 || up[0] != cp {
+                    let s: Vec<String> = up.iter().map(|x| x.to_string()).collect();
+                    writeln!(out, "{} {}", cp, s.join(" ")).unwrap();
+                }
+            }
+        }
+        out.flush().unwrap();
+        return;
+    }
     for line in stdin.lock().lines() {
         let line = line.unwrap();
         let t: Vec<&str> = line.trim().split(' ').collect();
